@@ -348,19 +348,29 @@ def run_cases(driver, component, cases, with_model=True, extra_env=None):
     return res, crash
 
 
-def minimise(driver, component, ops, pred, with_model=True, extra_env=None, budget=400):
-    """ddmin on the op list: keeps `pred(CaseResult)` true. The first op (constructor) is kept."""
+MINIMISE_DEADLINE = [None]   # absolute time after which no further minimisation is attempted in this run
+
+
+def minimise(driver, component, ops, pred, with_model=True, extra_env=None, budget=400, seconds=60):
+    """ddmin on the op list: keeps `pred(CaseResult)` true. The first op (constructor) is kept.
+    Bounded by `budget` executions, `seconds` of wall time and the run-wide MINIMISE_DEADLINE."""
+    t_end = time.time() + seconds
+    if MINIMISE_DEADLINE[0] is not None:
+        t_end = min(t_end, MINIMISE_DEADLINE[0])
+
     def test(cand):
         r, crash = run_cases(driver, component, [("m", cand)], with_model, extra_env)
         return pred(r[0])
     head, body = ops[:1], ops[1:]
     n, calls = 2, 0
-    while len(body) >= 2 and calls < budget:
+    while len(body) >= 2 and calls < budget and time.time() < t_end:
         chunk = max(1, len(body) // n)
         reduced = False
         for i in range(0, len(body), chunk):
             cand = body[:i] + body[i + chunk:]
             calls += 1
+            if time.time() >= t_end:
+                break
             if test(head + cand):
                 body, n, reduced = cand, max(n - 1, 2), True
                 break
@@ -368,7 +378,7 @@ def minimise(driver, component, ops, pred, with_model=True, extra_env=None, budg
             if chunk == 1:
                 break
             n = min(len(body), n * 2)
-    if len(body) == 1 and calls < budget and test(head):
+    if len(body) == 1 and calls < budget and time.time() < t_end and test(head):
         body = []
     return head + body
 
